@@ -98,6 +98,9 @@ vector<GlobalGraph::Edge> GlobalGraph::unlink(Graph::NodeId nodeA, Graph::NodeId
   // unlinking in the structure
   vector<GlobalGraph::Edge> deletedEdges; // what edges ID are affected by this unlinking
   deletedEdges.push_back(unlinkInNodeStructure_(nodeA, nodeB));
+  // an undirected relation is stored in both directions
+  if (!directed_ && nodeA != nodeB)
+    unlinkInNodeStructure_(nodeB, nodeA);
 
   for (auto& currEdgeToDelete : deletedEdges)
   {
@@ -184,19 +187,20 @@ unsigned int GlobalGraph::unlinkInNodeStructure_(const GlobalGraph::Node& nodeA,
 {
   // Forward
   nodeStructureType::iterator nodeARow = nodeStructure_.find(nodeA);
+  nodeStructureType::iterator nodeBRow = nodeStructure_.find(nodeB);
+  if (nodeARow == nodeStructure_.end() || nodeBRow == nodeStructure_.end())
+    throw Exception("GlobalGraph::unlinkInNodeStructure_ : no edge to erase " + TextTools::toString(nodeA) + "->" + TextTools::toString(nodeB));
   map<GlobalGraph::Node, GlobalGraph::Edge>::iterator foundForwardRelation = nodeARow->second.first.find(nodeB);
   if (foundForwardRelation == nodeARow->second.first.end())
     throw Exception("GlobalGraph::unlinkInNodeStructure_ : no edge to erase " + TextTools::toString(nodeA) + "->" + TextTools::toString(nodeB));
 
-  GlobalGraph::Edge foundEdge = foundForwardRelation->second;
-  nodeARow->second.first.erase(foundForwardRelation);
-
   // Backwards
-  nodeStructureType::iterator nodeBRow = nodeStructure_.find(nodeB);
   map<GlobalGraph::Node, GlobalGraph::Edge>::iterator foundBackwardsRelation = nodeBRow->second.second.find(nodeA);
-  if (foundBackwardsRelation == nodeBRow->second.first.end())
+  if (foundBackwardsRelation == nodeBRow->second.second.end())
     throw Exception("GlobalGraph::unlinkInNodeStructure_ : no edge to erase " + TextTools::toString(nodeB) + "<-" + TextTools::toString(nodeA));
 
+  GlobalGraph::Edge foundEdge = foundForwardRelation->second;
+  nodeARow->second.first.erase(foundForwardRelation);
   nodeBRow->second.second.erase(foundBackwardsRelation);
 
   this->topologyHasChanged_();
